@@ -133,7 +133,7 @@ def split_file(path):
         if not m:
             raise SystemExit(f"{path}: cannot find the name of: {t[:80]}")
         name = m.group(2)
-        fname = name.replace("'", "_p").replace(".", "_")
+        fname = name.replace("'", "_p").replace(".", "_").replace("?", "_q")
         opens, closes = [], []
         for sc in ctx:
             for line in sc:
